@@ -223,6 +223,8 @@ def run(ctx, out, budget):
     rng = ctx.rng(0)
     if budget == "quick":
         sess = [gen_session(rng, 40) for _ in range(150)]
+    elif budget == "search":
+        sess = [gen_session(rng, 40) for _ in range(1500)] + [gen_session(rng, 400) for _ in range(100)]
     else:
         sess = [gen_session(rng, 40) for _ in range(9000)] + [gen_session(rng, 400) for _ in range(500)]
     evaluate(ctx, out, sess, "h")
